@@ -33,7 +33,7 @@ class TraceBatch:
 
     def event(self, tid, ev, image_name):
         """append a tracefs event, normalising the file name of the traced image to 'IMG'"""
-        e = {k: v for k, v in ev.items() if k in ("e", "h", "pos", "req", "got", "off")}
+        e = {k: v for k, v in ev.items() if k in ("e", "h", "pos", "req", "got", "off", "moved")}
         f = ev.get("f", "")
         e["f"] = "IMG" if f == image_name else f
         if e["e"] == "read" and e.get("req") is None:
@@ -53,8 +53,8 @@ class TraceBatch:
             return {}, None
         r = tlc.run_ok("Trace_ImageIO", "Trace_ImageIO", workers=1, env={"TRACE_FILE": self.path}, timeout=timeout)
         out = {}
-        for m in re.finditer(r'<<"VERDICT", (\d+), "(\w+)", (\d+), "([^"]*)", (\d+)>>', r.out):
-            out[int(m.group(1))] = dict(status=m.group(2), line=int(m.group(3)), clause=m.group(4), drift=int(m.group(5)))
+        for m in re.finditer(r'<<"VERDICT", (\d+), "(\w+)", (\d+), "([^"]*)", (-?\d+)>>', r.out):
+            out[int(m.group(1))] = dict(status=m.group(2), line=int(m.group(3)), clause=m.group(4), drift=max(0, int(m.group(5))))
         if len(out) != self.n:
             raise tlc.TlcError(f"trace validation produced {len(out)} verdicts for {self.n} traces:\n" + r.out[-3000:])
         if r.violated:
